@@ -5,6 +5,7 @@ import (
 	"math"
 	"reflect"
 	"regexp"
+	"sort"
 	"strconv"
 	"strings"
 	"testing"
@@ -29,10 +30,17 @@ type cfgT struct {
 	Nums  map[string]any    // n0..n3: int or float
 	Strs  map[string]string // s0..s2
 	Which string            // "", "a" or "b": selects c18.sel.<which>
+	Derv  map[string]string // d0, d1: configured texts that refer to other keys ("${c18.n0:1}+${c18.n1:2}")
 }
 
 func genCfg(t *rapid.T) cfgT {
-	c := cfgT{Nums: map[string]any{}, Strs: map[string]string{}}
+	c := cfgT{Nums: map[string]any{}, Strs: map[string]string{}, Derv: map[string]string{}}
+	for i := 0; i < 2; i++ {
+		if rapid.IntRange(0, 2).Draw(t, "dk") > 0 {
+			c.Derv[fmt.Sprintf("d%d", i)] = fmt.Sprintf("${c18.n%d:%d}%s${c18.n%d:%d}", rapid.IntRange(0, 3).Draw(t, "da"), rapid.IntRange(1, 9).Draw(t, "dad"),
+				rapid.SampledFrom([]string{"+", "*", "-"}).Draw(t, "dop"), rapid.IntRange(0, 3).Draw(t, "db"), rapid.IntRange(1, 9).Draw(t, "dbd"))
+		}
+	}
 	for i := 0; i < 4; i++ {
 		switch rapid.IntRange(0, 3).Draw(t, "nk") {
 		case 0:
@@ -57,6 +65,9 @@ func (c cfgT) yaml() []byte {
 		m[k] = v
 	}
 	for k, v := range c.Strs {
+		m[k] = v
+	}
+	for k, v := range c.Derv {
 		m[k] = v
 	}
 	m["sel"] = map[string]any{"a": 3, "b": 4}
@@ -99,6 +110,9 @@ func (c cfgT) substituteOnce(s string) string {
 		if v, ok := c.Strs[k]; ok {
 			return v
 		}
+		if v, ok := c.Derv[k]; ok {
+			return v
+		}
 		switch k {
 		case "which":
 			if c.Which != "" {
@@ -111,6 +125,15 @@ func (c cfgT) substituteOnce(s string) string {
 		}
 		return def
 	})
+}
+
+func sortedKeys[V any](m map[string]V) []string {
+	var ks []string
+	for k := range m {
+		ks = append(ks, k)
+	}
+	sort.Strings(ks)
+	return ks
 }
 
 // ---- expression grammar ---------------------------------------------------------------------------
@@ -133,12 +156,18 @@ func (g *gen) num() string {
 		return fmt.Sprintf("${c18.n%d:%d}", k, rapid.IntRange(1, 9).Draw(g.t, "ndef"))
 	case 3:
 		// present key without default
-		for k := range g.c.Nums {
+		if ks := sortedKeys(g.c.Nums); len(ks) > 0 {
 			g.usesPh = true
-			return "${c18." + k + "}"
+			return "${c18." + rapid.SampledFrom(ks).Draw(g.t, "pkey") + "}"
 		}
 		return "3"
 	case 4:
+		if len(g.c.Derv) > 0 && rapid.Bool().Draw(g.t, "derived") {
+			// a configured text that itself refers to keys the expression may also use directly
+			ks := sortedKeys(g.c.Derv)
+			g.usesPh = true
+			return "(${c18." + rapid.SampledFrom(ks).Draw(g.t, "dkey") + "})"
+		}
 		return "(" + g.arith(1) + ")"
 	case 5:
 		g.usesPh = true
